@@ -44,6 +44,8 @@ MEMO_DECOS = {'lru_cache', 'cache'}
 def _is_set_expr(e, setvars):
   if isinstance(e, (ast.Set, ast.SetComp)):
     return True
+  if isinstance(e, ast.Attribute) and isinstance(e.value, ast.Name) and e.value.id == 'self' and ('self.' + e.attr) in setvars:
+    return True
   if isinstance(e, ast.Call):
     f = e.func
     if isinstance(f, ast.Name) and f.id in SETCALLS:
@@ -101,6 +103,29 @@ def scan_file(relpath, text):
       p = parents.get(p)
     return '.'.join(reversed(names))
 
+  # attributes of self that only ever hold sets (every `self.x = ...` in the class assigns a set expression)
+  class_setattrs = {}
+  for cnode in ast.walk(tree):
+    if not isinstance(cnode, ast.ClassDef):
+      continue
+    good, bad = set(), set()
+    for n in ast.walk(cnode):
+      if isinstance(n, (ast.Assign, ast.AnnAssign)):
+        tgts = n.targets if isinstance(n, ast.Assign) else [n.target]
+        for t in tgts:
+          if isinstance(t, ast.Attribute) and isinstance(t.value, ast.Name) and t.value.id == 'self':
+            if n.value is not None and _is_set_expr(n.value, set()):
+              good.add('self.' + t.attr)
+            else:
+              bad.add('self.' + t.attr)
+    class_setattrs[cnode] = good - bad
+
+  def class_of(fnode):
+    p = parents.get(fnode)
+    while p is not None and not isinstance(p, ast.ClassDef):
+      p = parents.get(p)
+    return p
+
   for fnode in ast.walk(tree):
     if not isinstance(fnode, (ast.FunctionDef, ast.AsyncFunctionDef)):
       continue
@@ -111,7 +136,7 @@ def scan_file(relpath, text):
       if nm in MEMO_DECOS:
         memos.append(dict(file=relpath, func=q, kind='memo:' + nm, expr=ast.unparse(d), line=fnode.lineno))
     own = list(_own_nodes(fnode))
-    setvars = set()
+    setvars = set(class_setattrs.get(class_of(fnode), ()))
     for n in own:
       if isinstance(n, ast.Assign) and len(n.targets) == 1 and isinstance(n.targets[0], ast.Name) and _is_set_expr(n.value, setvars):
         setvars.add(n.targets[0].id)
@@ -169,6 +194,10 @@ def scan_file(relpath, text):
             add('index(list(set))', n.args[0], n.lineno)
           else:
             add(fn + '(set)', n.args[0], n.lineno)
+      if isinstance(n, ast.Call) and isinstance(n.func, ast.Name) and n.func.id in ('sorted', 'min', 'max') and n.args and any(
+          k.arg == 'key' for k in n.keywords) and _is_set_expr(n.args[0], setvars):
+        # a stable sort / first extremum by a key: elements with equal keys keep the set's iteration order
+        add('%s-by-key(set)' % n.func.id, n.args[0], n.lineno)
       if isinstance(n, ast.Call) and isinstance(n.func, ast.Attribute) and n.func.attr == 'join' and n.args and _is_set_expr(n.args[0], setvars):
         add('join(set)', n.args[0], n.lineno)
       if isinstance(n, ast.Call) and isinstance(n.func, ast.Attribute) and n.func.attr == 'pop' and not n.args and _is_set_expr(n.func.value, setvars):
